@@ -842,7 +842,7 @@ func init() {
 	core.Register(&core.Check{
 		ID:       "C16",
 		Category: "exploration",
-		Rule: "GetAttr on the full product of 29 containers (maps with string/int/float/bool/interface keys, nil maps, slices, arrays, pointers to them, structs with exported/unexported/embedded fields and value/pointer-receiver methods, nil and typed-nil, scalars) x 29 keys x 32 argument lists; " +
+		Rule: "GetAttr on the full product of 57 containers (maps with string/int/float/bool/interface keys, maps whose key type is a named or further unnamed type of every kind - named string, int, int8, int64, time.Duration, uint64, uint8, float64, float32, bool; int64, uint8, float32 - and pointers to them, nil maps, slices, arrays, pointers to them, structs with exported/unexported/embedded fields and value/pointer-receiver methods, nil and typed-nil, scalars) x 40 keys (incl. values of named types and out-of-range numbers) x 32 argument lists; " +
 			"Iterate/Len/Contains/Is* on 12 iterable carriers x lengths 0..8 x every break/error position, and 6 non-iterables; the same container/key pairs through '{{ c[k] }}'. " +
 			"Oracle: table reference (the harness knows the contents): no panic; same-typed key present => that element; other-typed key => error or the element under the documented coercion of the key; absent/out-of-range/nil/wrong arity => error; loop metadata equations. " +
 			"distinct = distinct (container,key,args) or (carrier,length,break); non-trivial = the expectation is not 'unspecified'",
